@@ -40,7 +40,8 @@ def eq_literals(fn):
                 return const_of(a)
         return None
 
-    def walk(bb, lit_path, seen):
+    def walk(bb, pos, neg, seen):
+        """pos: the literal the unit is known to equal on this path (or None); neg: literals it is known to differ from"""
         if bb in seen:
             return
         seen = seen | {bb}
@@ -50,12 +51,13 @@ def eq_literals(fn):
                 v = T.rvalue(s["r"])
                 k = cmp_lit(v)
                 if const_of(v) == 1:
-                    if lit_path is not None:
-                        lits.add(lit_path)
+                    if pos is not None:
+                        lits.add(pos)
                     else:
-                        other.append("unconditional true")
+                        other.append("true for every unit except %s" % sorted(neg))
                 elif k is not None:
-                    lits.add(k)
+                    if (pos is None and k not in neg) or pos == k:
+                        lits.add(k)
                 elif const_of(v) == 0:
                     pass
                 else:
@@ -65,13 +67,15 @@ def eq_literals(fn):
             sw = M.switch_term(fn, T, bb)
             k = cmp_lit(sw)
             if k is not None:
-                walk(M.switch_target(t, 1), k, seen)
-                walk(M.switch_target(t, 0), None if lit_path is None else None, seen)
+                if (pos is None and k not in neg) or pos == k:
+                    walk(M.switch_target(t, 1), k, neg, seen)
+                if pos != k:
+                    walk(M.switch_target(t, 0), pos, neg | {k}, seen)
                 return
             other.append("branch on " + M.term_str(sw))
         for s in fn.succs(bb):
-            walk(s, lit_path, seen)
-    walk(0, None, frozenset())
+            walk(s, pos, neg, seen)
+    walk(0, None, frozenset(), frozenset())
     return lits, other
 
 
@@ -309,6 +313,48 @@ def run(ctx):
             incs.append((bb, src))
     okc = [r[1] for r in resets] == [0] and len(incs) == 1 and incs[0][1] == "n+1" and dominated_by_edges(aq, incs[0][0], bs_t)
     ctx.ob("R20.3", "counter=consecutive-backslashes", okc, aq.loc(incs[0][0] if incs else 0), "num_backslashes is reset to 0 for every run and incremented exactly under `arg[i] == '\\\\'` (resets %s, increments %s)" % (resets, incs))
+
+    # ---- R20.5 scan discipline: the cursor visits every unit exactly once, in order, in bounds ---------------------------------
+    i_resets, i_incs, i_other = [], [], []
+    for (bb, si, r) in aq.defs().get(ilocs[0], []):
+        if r["k"] == "partial":
+            continue
+        if r["k"] == "use" and r["op"]["k"] == "const":
+            i_resets.append((bb, r["op"].get("int")))
+            continue
+        src = None
+        if r["k"] == "use" and r["op"]["k"] in ("copy", "move"):
+            d = [x for x in aq.defs().get(r["op"]["p"]["l"], []) if x[2]["k"] == "bin"]
+            if d and d[0][2]["op"] in ("AddWithOverflow", "Add"):
+                a_, b_ = d[0][2]["a"], d[0][2]["b"]
+                if a_["k"] in ("copy", "move") and a_["p"]["l"] == ilocs[0] and b_["k"] == "const" and b_.get("int") == 1:
+                    src = "i+1"
+        (i_incs if src else i_other).append(bb)
+    i_incs_pre = list(i_incs)
+    lt_t = bool_edges(aq, S, lambda c: c[0] == "bin" and ((c[1] == "Lt" and M.noref(c[2]) == i_ and is_len(c[3])) or (c[1] == "Gt" and M.noref(c[3]) == i_ and is_len(c[2]))), True)
+    in_bounds = lt_t + end_f
+    idx_sites = [(bb, t) for bb, t in aq.calls() if "index" in M.callee_str(t["f"]).lower() and len(t["args"]) == 2
+                 and M.noref(S.operand(t["args"][0])) == v_]
+    ctx.floor("R20.5", "arg[..] index sites", len(idx_sites), 3)
+    for bb, t in idx_sites:
+        at_i = M.noref(S.operand(t["args"][1])) == i_
+        # the bound must have been established for the *current* value of i: also on every path that starts after an increment of i
+        fresh = all(bb not in aq.reachable(aq.blocks[x]["term"].get("t", x) if aq.blocks[x]["term"]["k"] == "call" else x) or
+                    all(dominated_by_edges(aq, bb, in_bounds, start=s_) for s_ in aq.succs(x)) for x in i_incs_pre)
+        ctx.ob("R20.5", "index-is-cursor-in-bounds", at_i and dominated_by_edges(aq, bb, in_bounds) and fresh, aq.loc(bb),
+               "every arg[..] access reads arg[i] under `i < arg.len()` (or after `i == arg.len()` was excluded): an access at i == len panics for arguments ending in a backslash run")
+    in_loop = set().union(*all_loops) if all_loops else set()
+    ctx.ob("R20.5", "cursor-starts-at-0", [v for _, v in i_resets] == [0] and all(b not in in_loop for b, _ in i_resets) and not i_other, aq.loc(i_resets[0][0] if i_resets else 0),
+           "the cursor i is initialised to 0 once, outside every loop, and otherwise only ever incremented by one (initialisations %s, other updates in blocks %s)" % (i_resets, i_other))
+    # every cycle of the function either advances the cursor or is one of the counted emission loops
+    rng_drv = [bb for bb, t in aq.calls() if "Range" in M.callee_str(t["f"]) and M.callee_str(t["f"]).endswith("::next")]
+    stuck = M.sccs(aq, removed=set(i_incs) | set(rng_drv))
+    ctx.ob("R20.5", "every-iteration-advances-cursor", bool(i_incs) and not stuck, aq.loc(min(min(c) for c in stuck) if stuck else 0),
+           "every loop iteration over the argument advances i by one (a cycle that neither increments i nor is a counted emission loop re-reads the same unit forever or skips it): remaining cycles %s" % [sorted(c)[:6] for c in stuck])
+    # a unit that is copied is copied once per visit: between two cursor advances at most one push(arg[i])
+    cpb = {bb for bb, _ in cp}
+    twice = [b for b in cpb if any(b2 in aq.reachable(aq.blocks[b]["term"]["t"], stop_blocks=i_incs) for b2 in cpb)] if cp else []
+    ctx.ob("R20.5", "unit-copied-once-per-visit", not twice, aq.loc(twice[0] if twice else 0), "after push(arg[i]) the cursor advances before any further push(arg[i])")
 
     # ---- R20.4 quotes bracket the loop -------------------------------------------------------------------------
     qp = [(bb, t) for bb, t in aq.calls() if M.callee_str(t["f"]) == "std::vec::Vec::<T, A>::push" and const_of(S.operand(t["args"][1])) == 0x22 and M.noref(S.operand(t["args"][0])) == bufp]
